@@ -17,7 +17,7 @@ INFO = {
     "outside": ["policy `interactive` (excluded by the property)", "tree pairs outside the mutation list", "edit sequences longer than one operation after loading"],
     "stubs": ["memfs", "report recorder on the loading instance"],
 }
-BUDGET = {"quick": 240, "thorough": 1100}
+BUDGET = {"quick": 240, "thorough": 800}
 
 CONF = "/m/sdkconfig"
 
